@@ -344,4 +344,62 @@ def Mu.init (nRx nTx : Nat) (taps : List (Nat × α)) (ant : Option (Nat × Nat)
   { nRx := nRx, nTx := nTx,
     links := tab (nRx * nTx) (fun l => { tdl := Tdl.init taps ant jakes l, pl := none }) }
 
+/-! ## operation histories on one object -/
+
+/-- operations on a `SuChannel` (a `TdlChannel` is the same object without `setPathloss`) -/
+inductive SuOp (α : Type)
+  | tx (x : List (List α))
+  | fx (x : List (List α)) (fft : Nat) (sel : Sel)
+  | setSwitched (b : Bool)
+  | setPathloss (s : Option α)
+  | getIR
+
+inductive SuOut (α : Type)
+  | y (rows : List (List α))
+  | ir (r : IR α)
+  | unit
+
+def Su.step (proc : Proc α) (fftK : Fft α) (c : Su α) : SuOp α → Except PyErr (Su α × SuOut α)
+  | .tx x => do let (c', y) ← c.corrupt proc x; pure (c', .y y)
+  | .fx x fft sel => do let (c', y) ← c.corruptFreq proc fftK x fft sel; pure (c', .y y)
+  | .setSwitched b => pure ({ c with tdl := { c.tdl with switched := b } }, .unit)
+  | .setPathloss s => pure ({ c with pl := s }, .unit)
+  | .getIR => do let r ← c.lastIR; pure (c, .ir r)
+
+/-- run a history; a Python exception ends it -/
+def Su.run (proc : Proc α) (fftK : Fft α) : Su α → List (SuOp α) → Except PyErr (Su α × List (SuOut α))
+  | c, [] => pure (c, [])
+  | c, op :: ops => do
+      let (c', o) ← c.step proc fftK op
+      let (cf, os) ← Su.run proc fftK c' ops
+      pure (cf, o :: os)
+
+/-- fading-generator positions an operation consumes -/
+def SuOp.advance (jakes : Bool) : SuOp α → Nat
+  | .tx x => numSymbols x
+  | .fx x fft sel =>
+      match freqPlan sel fft (numSymbols x) with
+      | .ok (_, _, nb) => blockEndPos jakes fft nb 0
+      | .error _ => 0
+  | _ => 0
+
+inductive MuOp (α : Type)
+  | tx (x : List (List (List α)))
+  | fx (x : List (List (List α))) (fft : Nat) (sel : Sel)
+  | setSwitched (b : Bool)
+  | setPathloss (s : List (List α))
+  | getIR (rx tx : Nat)
+
+inductive MuOut (α : Type)
+  | y (outs : List (List (List α)))
+  | ir (r : IR α)
+  | unit
+
+def Mu.step (proc : Proc α) (fftK : Fft α) (c : Mu α) : MuOp α → Except PyErr (Mu α × MuOut α)
+  | .tx x => do let (c', y) ← c.corrupt proc x; pure (c', .y y)
+  | .fx x fft sel => do let (c', y) ← c.corruptFreq proc fftK x fft sel; pure (c', .y y)
+  | .setSwitched b => pure (c.setSwitched b, .unit)
+  | .setPathloss s => do let c' ← c.setPathloss s; pure (c', .unit)
+  | .getIR rx tx => do let r ← c.lastIR rx tx; pure (c, .ir r)
+
 end PyPhysim.C03
